@@ -56,6 +56,10 @@ pub struct DdCase {
     pub rank: RankMode,
     pub main: CompileSpec,
     pub history: Vec<CompileSpec>,
+    /// the history and the main compilation share one cache and one dominance store (as the
+    /// compilations of a solver do); otherwise each compilation gets fresh ones
+    #[serde(default)]
+    pub warm: bool,
 }
 
 /// a concrete exact sub-problem of an instance
@@ -162,33 +166,52 @@ pub struct Env<'a> {
     pub cache: CacheKind,
 }
 
-/// Compiles `spec` on `dd` with fresh cache and dominance store; collects everything observable.
-pub fn compile_on<D: DecisionDiagram<State = St> + Viz>(dd: &mut D, env: &Env, spec: &CompileSpec, record: bool, viz_bits: &[u8], drain: bool) -> DdOut {
+/// The stores a solver shares between all its compilations: cache, dominance store (and the log our
+/// wrappers write to).
+pub struct Stores<'a> {
+    pub log: Arc<Log<St>>,
+    c_empty: HookCache<EmptyCache<St>>,
+    c_simple: HookCache<SimpleCache<St>>,
+    dom: Box<dyn DominanceChecker<State = St> + Send + Sync + 'a>,
+}
+pub fn new_stores<'a>(env: &Env<'a>, record: bool) -> Stores<'a> {
     let t = env.t;
-    let o = env.o;
-    let sub = select_sub(t, &spec.sub);
-    let subopt = sub_opt(o, &sub);
-    let best_lb = incumbent(spec.inc, subopt);
     let log: Arc<Log<St>> = Log::new(record);
-    let pb = RecProblem { inner: t, log: log.clone() };
-    let rlx_inner = TRelax { t, o, rub: env.rub };
-    let rlx = RecRelax { inner: &rlx_inner, log: log.clone() };
-    let rank = TRank { t, o, mode: env.rank };
-    let dom_inner: Box<dyn DominanceChecker<State = St> + Send + Sync> = match env.dom {
+    let dom: Box<dyn DominanceChecker<State = St> + Send + Sync + 'a> = match env.dom {
         DomMode::None => Box::new(EmptyDominanceChecker::default()),
-        _ => Box::new(SimpleDominanceChecker::new(TDom { t, o, mode: env.dom }, t.n)),
+        _ => Box::new(SimpleDominanceChecker::new(TDom { t, o: env.o, mode: env.dom }, t.n)),
     };
-    let dom = RecDom { inner: dom_inner.as_ref(), log: log.clone(), yield_hook: None };
-    let cut = CountCut::new(spec.cut_at, usize::MAX, log.clone());
     set_cache_observer::<St>(Some(Arc::new(LogCacheObs { log: log.clone(), yield_hook: None })));
     let mut c_empty: HookCache<EmptyCache<St>> = Default::default();
     let mut c_simple: HookCache<SimpleCache<St>> = Default::default();
     set_cache_observer::<St>(None);
     c_empty.initialize(t);
     c_simple.initialize(t);
+    Stores { log, c_empty, c_simple, dom }
+}
+
+/// Compiles `spec` on `dd` with fresh cache and dominance store; collects everything observable.
+pub fn compile_on<D: DecisionDiagram<State = St> + Viz>(dd: &mut D, env: &Env, spec: &CompileSpec, record: bool, viz_bits: &[u8], drain: bool) -> DdOut {
+    let stores = new_stores(env, record);
+    compile_with(dd, env, spec, &stores, viz_bits, drain)
+}
+/// Compiles `spec` on `dd` with the given (possibly warm) stores.
+pub fn compile_with<D: DecisionDiagram<State = St> + Viz>(dd: &mut D, env: &Env, spec: &CompileSpec, stores: &Stores, viz_bits: &[u8], drain: bool) -> DdOut {
+    let t = env.t;
+    let o = env.o;
+    let sub = select_sub(t, &spec.sub);
+    let subopt = sub_opt(o, &sub);
+    let best_lb = incumbent(spec.inc, subopt);
+    let log = stores.log.clone();
+    let pb = RecProblem { inner: t, log: log.clone() };
+    let rlx_inner = TRelax { t, o, rub: env.rub };
+    let rlx = RecRelax { inner: &rlx_inner, log: log.clone() };
+    let rank = TRank { t, o, mode: env.rank };
+    let dom = RecDom { inner: stores.dom.as_ref(), log: log.clone(), yield_hook: None };
+    let cut = CountCut::new(spec.cut_at, usize::MAX, log.clone());
     let cache: &dyn Cache<State = St> = match env.cache {
-        CacheKind::Empty => &c_empty,
-        CacheKind::Simple => &c_simple,
+        CacheKind::Empty => &stores.c_empty,
+        CacheKind::Simple => &stores.c_simple,
     };
     let residual = SubProblem { state: Arc::new(t.mk_state(sub.depth, 1 << sub.atom)), value: sub.value, path: sub.path.clone(), ub: isize::MAX, depth: sub.depth };
     let input = CompilationInput { comp_type: spec.ctype.to_ddo(), problem: &pb, relaxation: &rlx, ranking: &rank, cutoff: &cut, max_width: spec.width, residual: &residual, best_lb, cache, dominance: &dom };
@@ -244,6 +267,21 @@ pub fn compile_on<D: DecisionDiagram<State = St> + Viz>(dd: &mut D, env: &Env, s
 pub fn run_case_on<D: DecisionDiagram<State = St> + Viz + Default>(case: &DdCase, o: &Oracle, with_history: bool, record: bool, viz_bits: &[u8]) -> DdOut {
     let env = Env { t: &case.t, o, rub: &case.rub, dom: &case.dom, rank: &case.rank, cache: case.cache };
     let mut dd = D::default();
+    if with_history && case.warm {
+        // as in a solver: one cache and one dominance store for all the compilations
+        let stores = new_stores(&env, record);
+        for h in case.history.iter() {
+            let r = compile_with(&mut dd, &env, h, &stores, &[], h.width % 2 == 0);
+            if r.panic.is_some() {
+                let mut out = DdOut::default();
+                out.panic = Some(format!("history compilation panicked: {:?}", r.panic));
+                return out;
+            }
+        }
+        let _ = stores.log.take();
+        stores.log.c.reset();
+        return compile_with(&mut dd, &env, &case.main, &stores, viz_bits, true);
+    }
     if with_history {
         for h in case.history.iter() {
             let r = compile_on(&mut dd, &env, h, false, &[], h.width % 2 == 0);
@@ -281,6 +319,19 @@ fn spec_strategy(ctypes: Vec<CType>, max_width: usize, allow_cut: bool) -> impl 
     (prop::sample::select(ctypes), width, sub, inc, cut).prop_map(|(ctype, width, sub, inc, cut_at)| CompileSpec { ctype, width, sub, inc, cut_at })
 }
 
+/// as `dd_case_strategy`, but the compilation under test comes after 2..=5 others that share its cache
+/// (SimpleCache) and dominance store, most of them relaxed: its layers meet thresholds left by the others
+pub fn dd_case_strategy_warm(p: GenParams, main_types: Vec<CType>, dds: Vec<DdKind>) -> impl Strategy<Value = DdCase> {
+    let hist = vec![CType::Exact, CType::Restricted, CType::Relaxed, CType::Relaxed, CType::Relaxed];
+    (
+        table_strategy(p),
+        config_strategy(ConfigGen { max_width: 4, ..Default::default() }),
+        prop::sample::select(dds),
+        spec_strategy(main_types, 4, false),
+        prop::collection::vec(spec_strategy(hist, 4, true), 2..=5),
+    )
+        .prop_map(|(t, cfg, dd, main, history)| DdCase { t, dd, cache: CacheKind::Simple, rub: cfg.rub, dom: cfg.dom, rank: cfg.rank, main, history, warm: true })
+}
 pub fn dd_case_strategy(p: GenParams, main_types: Vec<CType>, dds: Vec<DdKind>) -> impl Strategy<Value = DdCase> {
     dd_case_strategy_cut(p, main_types, dds, false)
 }
@@ -294,5 +345,5 @@ pub fn dd_case_strategy_cut(p: GenParams, main_types: Vec<CType>, dds: Vec<DdKin
         spec_strategy(main_types, 4, main_cut),
         prop_oneof![2 => Just(vec![]).boxed(), 1 => prop::collection::vec(spec_strategy(all, 4, true), 1..=3).boxed()],
     )
-        .prop_map(|(t, cfg, dd, main, history)| DdCase { t, dd, cache: cfg.cache, rub: cfg.rub, dom: cfg.dom, rank: cfg.rank, main, history })
+        .prop_map(|(t, cfg, dd, main, history)| DdCase { t, dd, cache: cfg.cache, rub: cfg.rub, dom: cfg.dom, rank: cfg.rank, main, history, warm: false })
 }
